@@ -5,7 +5,7 @@
    24 h = 86 400 000 000 000 ns.
    Bound: versions are MAJOR.MINOR.PATCH; pre-release / build suffixes are outside the
    model (parse_version answers None for them). *)
-From Coq Require Import String.
+From Coq Require Import String Ascii.
 From LP Require Import Semver Migrate Params MigrateParams Consts SemverProofs MigrateProofs MigrateParamsProofs.
 Import ListNotations.
 Local Open Scope N_scope.
@@ -69,6 +69,33 @@ Theorem C20_semver_not_string_order :
   parse_version "3.9.0" = Some (3, 9, 0) /\ parse_version "3.16.0" = Some (3, 16, 0) /\
   ver_ltb (3, 9, 0) (3, 16, 0) = true /\ str_ltb "3.16.0" "3.9.0" = true /\ str_ltb "3.9.0" "3.16.0" = false.
 Proof. exact semver_not_string_order. Qed.
+
+(* what `parse_version` accepts: exactly three dot-separated parts, digits and dots only,
+   each number within u64.  The model's stated bound (pre-release "-rc.1" and build
+   "+abc" suffixes answer None) is therefore a theorem about the model: no string
+   containing any other character parses. *)
+Theorem C20_parse_version_shape : forall s x y z,
+  parse_version s = Some (x, y, z) ->
+  length (split_dot s) = 3%nat /\
+  all_chars (fun c => is_dot c || is_digit c) s = true /\
+  x <= U64_MAX /\ y <= U64_MAX /\ z <= U64_MAX.
+Proof. exact parse_version_shape. Qed.
+
+Theorem C20_parse_version_rejects_other_chars : forall s c,
+  is_dot c = false -> is_digit c = false ->
+  (exists pre post, s = (pre ++ String c post)%string) -> parse_version s = None.
+Proof. exact parse_version_rejects_other_chars. Qed.
+
+Theorem C20_parse_num_leading_zero : forall c r,
+  parse_num (String "0"%char (String c r)) = None.
+Proof. exact parse_num_leading_zero. Qed.
+
+Example C20_parse_version_boundaries :
+  parse_version "3.9.0-rc.1" = None /\ parse_version "3.9.0+build" = None /\
+  parse_version "03.9.0" = None /\ parse_version "3.9" = None /\ parse_version "3.9.0.1" = None /\
+  parse_version "18446744073709551615.0.0" = Some (U64_MAX, 0, 0) /\
+  parse_version "18446744073709551616.0.0" = None.
+Proof. exact parse_version_prerelease_rejected. Qed.
 
 (* ---- accepted exactly when ... (one theorem per class of migrate function) ---- *)
 (* open-edition minters, token-merge minter, splits, the two Merkle whitelists *)
@@ -356,3 +383,7 @@ Print Assumptions C20_oe_migrate_params_frame.
 Print Assumptions C20_tm_migrate_params_frame.
 Print Assumptions C20_factory_migrate_whole.
 Print Assumptions C20_factory_migrate_ok_iff.
+Print Assumptions C20_parse_version_shape.
+Print Assumptions C20_parse_version_rejects_other_chars.
+Print Assumptions C20_parse_num_leading_zero.
+Print Assumptions C20_parse_version_boundaries.
